@@ -585,6 +585,10 @@ impl OpInst {
                 }
             }
             "memq" | "memv" | "member" => {
+                // what an element left unspecified (make-vector without a fill) compares equal to is open
+                if s.has_unspec(&a0) || s.has_unspec(&a1) {
+                    return NotEnabled;
+                }
                 // enabled on proper lists only (R7RS requires a list)
                 let l = match s.list(&a1) {
                     Some(l) => l,
@@ -604,6 +608,9 @@ impl OpInst {
                 Value(MV::B(false))
             }
             "assq" | "assv" | "assoc" => {
+                if s.has_unspec(&a0) || s.has_unspec(&a1) {
+                    return NotEnabled;
+                }
                 let l = match s.list(&a1) {
                     Some(l) => l,
                     None => return NotEnabled,
@@ -1439,6 +1446,59 @@ pub fn run(ctx: &Ctx) -> i32 {
         }
         beat("");
     }
+    // a large container looked at, mutated in place, looked at again (each step its own evaluation, so the value is
+    // converted for the host in between): the second look shows the mutation - as the value of an evaluation, through
+    // write, and through eval of a quotation of it
+    {
+        let mut im = Impl::new();
+        for n in [10usize, 255, 256, 257, 300, 1000, 5000] {
+            let sessions: Vec<(&str, Vec<String>, String)> = vec![
+                ("vector-set!", vec![format!("(define big (make-vector {} 0))", n), "(vector-length big)".into(), "big".into(), "(vector-set! big 7 'x)".into(), "(list (vector-ref big 6) (vector-ref big 7) (vector-ref big 8))".into()],
+                 "(vector-ref big 7)".into()),
+                ("vector-fill!", vec![format!("(define big (make-vector {} 0))", n), "big".into(), "(vector-fill! big 'f)".into(), "(vector-ref big 3)".into()], "(vector-ref big 3)".into()),
+                ("element-vector", vec![format!("(define big (let lp ((i 0) (a '())) (if (= i {}) a (lp (+ i 1) (cons (vector i) a)))))", n), "big".into(), "(vector-set! (car big) 0 'y)".into(), "(car big)".into()], "(vector-ref (car big) 0)".into()),
+                ("element-string", vec![format!("(define big (let lp ((i 0) (a '())) (if (= i {}) a (lp (+ i 1) (cons (string #\\a) a)))))", n), "big".into(), "(string-set! (car big) 0 #\\z)".into(), "(car big)".into()], "(string-ref (car big) 0)".into()),
+                ("set-car!", vec![format!("(define big (let lp ((i 0) (a '())) (if (= i {}) a (lp (+ i 1) (cons i a)))))", n), "big".into(), "(set-car! (cddr big) 'c)".into(), "(caddr big)".into()], "(caddr big)".into()),
+            ];
+            for (name, steps, probe) in sessions {
+                acc.evals += 1;
+                beat(&format!("{} on a container of {}", name, n));
+                for st in &steps {
+                    let _ = im.eval_text(st);
+                }
+                // the three looks must agree with direct access
+                let direct = im.eval_text(&probe).show();
+                let where_ = match name { "vector-set!" => "(vector-ref V 7)", "vector-fill!" => "(vector-ref V 3)", "element-vector" => "(vector-ref (car V) 0)", "element-string" => "(string-ref (car V) 0)", _ => "(caddr V)" };
+                im.log.borrow_mut().clear();
+                let looks = [
+                    ("value of an evaluation", im.eval_text("big").show()),
+                    ("eval of a quotation", im.eval_text("(eval (list 'quote big))").show()),
+                    ("write", { let _ = im.eval_text("(write big)"); im.log.borrow().last().map(|(_, c)| format!("{:#}", c)).unwrap_or_default() }),
+                ];
+                let mut bad = vec![];
+                for (how, text) in &looks {
+                    // read the look back and access the same place
+                    let q = format!("{} ", where_.replace('V', &format!("'{}", text)));
+                    let got = Impl::new().eval_text(&q).show();
+                    if got != direct {
+                        bad.push(format!("{}: the mutated place shows {} but direct access gives {}", how, got, direct));
+                    }
+                }
+                if bad.is_empty() {
+                    acc.nontrivial += 1;
+                } else {
+                    acc.violation(Violation {
+                        key: format!("large-mutation:{}:{}", name, n),
+                        class: Some("large-container-mutation-visible".into()),
+                        observed: "stale-contents".into(),
+                        detail: json!({"session": steps, "problems": bad}),
+                    });
+                    im = Impl::new();
+                }
+            }
+        }
+        beat("");
+    }
     // stored values are the very values given: every ordered pair (OLD, NEW) of scalars that include numerically equal
     // numbers of different exactness and both signed zeros, each produced as a literal or as the car of a fresh list,
     // through every storing or copying procedure; observed in written form (number comparison would hide 2 vs 2.0)
@@ -1579,7 +1639,7 @@ pub fn run(ctx: &Ctx) -> i32 {
         rep.extra("beyond_the_bound", json!(format!("level {} expanded from {} of the {} states of the level before (hash order); not part of the exhaustive claim", depth_done + 1, k, total)));
     }
     rep.rule = format!(
-        "Breadth-first search to depth {} from 9 initial pools over a reference store model: 4 named slots holding scalars (0 1 a #t () #\\x, small integers) or references into a store of pairs and vectors (spine <= 3, vector length <= 3, <= 8 objects, acyclic), canonicalised by renaming locations in first-visit order and dropping unreachable objects (sound because the language cannot observe addresses). Alphabet: {} operation instances over the slots (cons car cdr set-car! set-cdr! list length append reverse list-tail list-ref memq memv member assq assv assoc map (3 procedures, 1 and 2 lists) for-each (1 and 2 lists) list? vector make-vector vector-length vector-ref vector-set! vector-fill! vector->list list->vector vector-copy (with start) vector-copy! (at, start, end incl. overlapping) equal?, apply with individual arguments before the list, and moves), indices from -1..len+1 and 2^62; an instance is enabled only where R7RS fixes the outcome. Every transition is executed on the real VM: the state is built from its canonical form, the operation applied, and the result (value vs required error) and the whole pool afterwards compared with the model: contents by value (also through equal? against the pool read as a literal, both ways round), identity by writing a marker through each object in turn and comparing which paths show it; the pool is also given to write and display and the datum that reaches the output must print like the dump. Large structures: equal? / member / assoc on lists and vectors of 10 .. 300 rows with the same row object on one side and separately allocated rows on the other (16 checks x 6 sizes). Stored values: 21 storing / copying expressions (vector-fill! also twice in a row and over the unfilled default, vector-set!, set-car!, set-cdr!, vector-copy!, make-vector, list->vector, vector->list, append, reverse, map, vector-copy, list-tail, list-ref, vector-ref, apply) x every ordered pair of 17 scalars (0 0.0 -0.0 1 1.0 -1 1/2 0.5 2 2.0 10^20 1e20 a \"s\" #\\x #t ()) x each produced as a literal or as the car of a fresh list, compared in written form so that exactness and the sign of zero show. Histories: from each initial pool every enabled operation followed, on the same objects and without rebuilding, by every operation that reads the first one's destination (or any operation after a mutator), with the same oracles. Shortest paths of a sub-set of states are replayed from the initial pool in a fresh VM (state reached by operations = state built directly). Non-trivial = a transition whose outcome and full pool observation agreed.",
+        "Breadth-first search to depth {} from 9 initial pools over a reference store model: 4 named slots holding scalars (0 1 a #t () #\\x, small integers) or references into a store of pairs and vectors (spine <= 3, vector length <= 3, <= 8 objects, acyclic), canonicalised by renaming locations in first-visit order and dropping unreachable objects (sound because the language cannot observe addresses). Alphabet: {} operation instances over the slots (cons car cdr set-car! set-cdr! list length append reverse list-tail list-ref memq memv member assq assv assoc map (3 procedures, 1 and 2 lists) for-each (1 and 2 lists) list? vector make-vector vector-length vector-ref vector-set! vector-fill! vector->list list->vector vector-copy (with start) vector-copy! (at, start, end incl. overlapping) equal?, apply with individual arguments before the list, and moves), indices from -1..len+1 and 2^62; an instance is enabled only where R7RS fixes the outcome. Every transition is executed on the real VM: the state is built from its canonical form, the operation applied, and the result (value vs required error) and the whole pool afterwards compared with the model: contents by value (also through equal? against the pool read as a literal, both ways round), identity by writing a marker through each object in turn and comparing which paths show it; the pool is also given to write and display and the datum that reaches the output must print like the dump. Large structures: equal? / member / assoc on lists and vectors of 10 .. 300 rows with the same row object on one side and separately allocated rows on the other (16 checks x 6 sizes). Large containers (10 .. 5000 elements) looked at, mutated in place (vector-set!, vector-fill!, a vector / string element of a list, set-car!) and looked at again as the value of an evaluation, through write and through eval of a quotation: every look shows what direct access shows. Stored values: 21 storing / copying expressions (vector-fill! also twice in a row and over the unfilled default, vector-set!, set-car!, set-cdr!, vector-copy!, make-vector, list->vector, vector->list, append, reverse, map, vector-copy, list-tail, list-ref, vector-ref, apply) x every ordered pair of 17 scalars (0 0.0 -0.0 1 1.0 -1 1/2 0.5 2 2.0 10^20 1e20 a \"s\" #\\x #t ()) x each produced as a literal or as the car of a fresh list, compared in written form so that exactness and the sign of zero show. Histories: from each initial pool every enabled operation followed, on the same objects and without rebuilding, by every operation that reads the first one's destination (or any operation after a mutator), with the same oracles. Shortest paths of a sub-set of states are replayed from the initial pool in a fresh VM (state reached by operations = state built directly). Non-trivial = a transition whose outcome and full pool observation agreed.",
         depth_done, ops.len()
     );
     rep.assumptions.push("memq/assq/memv/assv get keys on which eq?/eqv? are fully specified; vector-copy's end argument is excluded (pinned non-R7RS meaning); calls whose outcome R7RS leaves open (car of a non-pair, assq on a list with non-pair elements, ...) are not enabled".into());
